@@ -3,7 +3,7 @@ SRC = ['repo:src/String.cpp', 'repo:src/Memory.cpp']
 NSRC = SRC + ['repo:src/Error.cpp', 'repo:src/File.cpp', 'repo:src/Directory.cpp', 'repo:src/Mutex.cpp', 'repo:src/Thread.cpp', 'repo:src/Time.cpp', 'repo:src/Signal.cpp', 'repo:src/System.cpp', 'repo:src/Debug.cpp', 'repo:src/Library.cpp']
 UNITS = [dict(
     name='args', harness='harness/c20_args.cpp', sources=SRC, native_sources=NSRC, native_flags=['-ldl'],
-    defines={'quick': {'VF_ARGC': 2, 'VF_ARGL': 3, 'VF_CL': 5}, 'thorough': {'VF_ARGC': 3, 'VF_ARGL': 4, 'VF_CL': 7}},
+    defines={'quick': {'VF_ARGC': 2, 'VF_ARGL': 5, 'VF_ARGL2': 2, 'VF_CL': 5}, 'thorough': {'VF_ARGC': 3, 'VF_ARGL': 6, 'VF_ARGL2': 3, 'VF_CL': 7}},
     entries=['arguments', 'split'],
     opts={'all': {'unwind': 64, 'max_instr': 300000}},
     split={'quick': 12, 'thorough': 16},
@@ -11,8 +11,8 @@ UNITS = [dict(
     validate=['arguments', 'split'],
 )]
 BOUNDS = {
-    'quick': 'argument vectors of <= 2 strings of <= 3 characters over {-,=,a,b,x} in exactly sized objects, option table {a: flag/--alpha, b: required argument/--beta, --gamma: optional argument} vs. a getopt_long-style reference ("--flag=value" excluded as unspecified); command lines of <= 5 characters over {space, ", \\\\, a} vs. a reference splitter; termination via the instruction budget',
-    'thorough': 'argument vectors of <= 3 strings of <= 4 characters; command lines <= 7 characters',
+    'quick': 'argument vectors of <= 2 strings (first <= 5 characters, second <= 2) over {-,=,a,b,x} in exactly sized objects, option table {a: flag/--aa, b: required argument/--bb, --xx: optional argument} vs. a getopt_long-style reference ("--flag=value" excluded as unspecified); command lines of <= 5 characters over {space, ", \\\\, a} vs. a reference splitter; termination via the instruction budget',
+    'thorough': 'argument vectors of <= 3 strings (first <= 6 characters, others <= 3); command lines <= 7 characters',
 }
 OUTSIDE = 'exec/argv/environment/pipes/exit codes of real child processes (kernel behaviour: not applicable to solver-based checking, DESIGN section 4); longer argument vectors'
 ASSUMPTIONS = ['clang++-14 -O1 IR of src/Process.cpp (Arguments::read/nextChar, Private::splitCommandLine only are executed), src/String.cpp, src/Memory.cpp']
